@@ -86,7 +86,7 @@ def gen(rng, tier, index):
                     "n_cmds": rng.randint(1, 6) if scenario != "F" else rng.choice([40, 90, 130]),
                     "producers": rng.randint(2, 4) if scenario in ("B", "S") else (3 if scenario == "F" else 1), "gaps": [rng.choice([0, 0, 0.005, 0.02, 0.03]) for _ in range(8)],
                     "event_delay": rng.choice([0, 0, 0.001, 0.01, 0.02, 0.0205, 0.04]), "sched": sched,
-                    "slow_send": flavour == "tcp" and rng.random() < 0.4}}
+                    "slow_send": flavour == "tcp" and rng.random() < 0.4, "long_cmds": scenario != "F" and rng.random() < 0.4}}
 
 
 def _vio(cls, detail, **sig):
@@ -125,6 +125,8 @@ def run(case):
             def producer(pid):
                 for i in range(cfg["n_cmds"]):
                     tag = f"p{pid}c{i}"
+                    if cfg.get("long_cmds") and (pid + i) % 2 == 0:
+                        tag += "-" + "long text payload " * 4  # a command of some 90 bytes (long V_TEXT, firmware block)
                     if cfg["scenario"] == "S" and (pid + i) % 2 == 0:
                         # a command for the SLEEPING node (a child it never presented): the presentation request it
                         # provokes is withheld in that node's queue, which the pump drains at every wake-up
@@ -294,10 +296,24 @@ def run(case):
                     probes["controller_call_raised"] = probes.get("controller_call_raised", 0) + 1
                 else:
                     probes["other_thread_died:" + role] = 1
-            writes = world.device.writes[base_w:]
+            raw_writes = world.device.writes[base_w:]
             tagset = set(tags)
             seen = collections.Counter()
             order = []
+            # what each connection received is the concatenation of the writes made to it: a command may be handed over in
+            # several pieces, but what has arrived in the end is whole commands only
+            writes, pending = [], {}
+            for t_w, seq_w, conn_id, is_open, data in raw_writes:
+                buf = pending.get(conn_id, b"") + data
+                while b"\n" in buf:
+                    line, _, buf = buf.partition(b"\n")
+                    writes.append((t_w, seq_w, conn_id, is_open, line + b"\n"))
+                pending[conn_id] = buf
+            for conn_id, buf in sorted(pending.items()):
+                if buf:
+                    writes.append((None, None, conn_id, True, buf))
+            if len(raw_writes) > len(writes):
+                probes["commands_written_in_pieces"] = 1
             for _t, _seq, conn_id, is_open, data in writes:
                 text = data.decode("utf-8", "replace")
                 if text.startswith("0;255;3;0;2;"):
